@@ -91,12 +91,32 @@ def build_chunk(E, k, which, msa_none, low=0):
 
 def h_msg(E, k, which, msa_none, low, prop):
     ch, S = build_chunk(E, k, which, msa_none, low)
-    okta, base, msa, flag = S['okta'], S['base'], S['msa'], S['flag']
     kind, msg = outcome(ch.metar_msg, which)
     cl = [('returns a string', kind == 'ok' and isinstance(msg, str))]
     if kind != 'ok' or not isinstance(msg, str):
         E.note('outcome', repr(msg))
         return cl
+    return cl + message_clauses(E, prop, S['okta'], S['base'], S['msa'], S['flag'], msg, S['codes'], S['atom_of_row'])
+
+
+def atoms_of_codes(codes):
+    """For each code string of a table: index of the formatted-integer atom it carries (shim world), else None."""
+    out = []
+    for c in codes:
+        idx = None
+        if shim() and isinstance(c, str):
+            for piece in decode_fragments(c):
+                if not isinstance(piece, str):
+                    idx = [n for n, a in enumerate(core.ENG.atoms) if a is piece][0]
+        out.append(idx)
+    return out
+
+
+def message_clauses(E, prop, okta, base, msa, flag, msg, codes, atom_of_row):
+    """The C01 / C02 clause sets for a message `msg` produced from a table with the given okta / base / code columns
+    (rows in table order), the MSA (None = no limit) and the high-cloud flag."""
+    k = len(okta)
+    cl = []
     below = [True if msa is None else b < msa for b in base]
     inR = [And(o >= 1, bl) for o, bl in zip(okta, below)]
     anyR = Or(inR) if inR else False
@@ -123,15 +143,15 @@ def h_msg(E, k, which, msa_none, low, prop):
     rows = []
     for g in groups:
         if shim():
-            r = [i for i, a in enumerate(S['atom_of_row']) if a == g[2]]
+            r = [i for i, a in enumerate(atom_of_row) if a == g[2]]
         else:
-            r = [i for i, c in enumerate(S['codes']) if c == g[0] + '%03d' % g[1]]
+            r = [i for i, c in enumerate(codes) if c == g[0] + '%03d' % g[1]]
         rows.append(r[0] if r else None)
     cl.append(('every group is the code of a listed layer', all(r is not None for r in rows)))
     if None in rows:
         return cl
     for g, r in zip(groups, rows):
-        cl.append(('group text = abbreviation of the okta + coded base of its row', S['codes'][r].startswith(g[0])))
+        cl.append(('group text = abbreviation of the okta + coded base of its row', codes[r].startswith(g[0])))
     if prop == 'C01':
         cl.append(('groups in non-decreasing height order',
                    And([groups[j][1] <= groups[j + 1][1] for j in range(len(groups) - 1)] or [True])
